@@ -62,6 +62,14 @@ func init() {
 
 // ---------------------------------------------------------------- part A: addressing
 
+// c18Prev: the Template of the previous addressing case, what it had registered and how one of its names rendered.
+var c18Prev struct {
+	tpl   *textwire.Template
+	names []string
+	name  string
+	out   string
+}
+
 func c18Addr(c *harness.Check, cs addrCase) string {
 	root, err := tree.Materialise(cs.Tree)
 	if err != nil {
@@ -84,6 +92,27 @@ func c18Addr(c *harness.Check, cs addrCase) string {
 		if lerr != nil {
 			failure = "unexpected load error: " + lerr.Error()
 			return
+		}
+		// a Template keeps what it registered: the load of another directory (this one) does not
+		// change the Template the previous case loaded
+		if c18Prev.tpl != nil {
+			if got := textwire.VerifNames(c18Prev.tpl); !reflect.DeepEqual(append([]string{}, got...), append([]string{}, c18Prev.names...)) {
+				failure = fmt.Sprintf("after this load the Template loaded before it registers %q, it had registered %q", got, c18Prev.names)
+				return
+			}
+			if c18Prev.name != "" {
+				if out, ferr := c18Prev.tpl.String(c18Prev.name, nil); ferr != nil || out != c18Prev.out {
+					failure = fmt.Sprintf("after this load the Template loaded before it renders %q as %q / %v, it had rendered %q", c18Prev.name, out, ferr, c18Prev.out)
+					return
+				}
+			}
+		}
+		c18Prev.tpl, c18Prev.names, c18Prev.name, c18Prev.out = tpl, append([]string{}, textwire.VerifNames(tpl)...), "", ""
+		for _, n := range c18Prev.names {
+			if out, ferr := tpl.String(n, nil); ferr == nil {
+				c18Prev.name, c18Prev.out = n, out
+				break
+			}
 		}
 		// expected registry: every regular file under RealDir whose name ends in Ext
 		expected := map[string]string{} // name -> content
@@ -196,10 +225,10 @@ func c18Addr(c *harness.Check, cs addrCase) string {
 
 func TestC18_Addressing(t *testing.T) {
 	c := harness.New(t, "C18", "addressing",
-		"directory trees over names {a, b, idx, a.b, tw, names with a backslash, a blank or a percent sign} at depths {., sub, sub/deep, d<ext>/} with decoys whose names merely contain the extension (a<ext>.bak, a<ext>ig, n.txt inside a directory named x<ext>, a<ext><ext>, the bare extension) and garbage in decoys; template directory nested one or two levels and spelled t, t/, ./t, x/../t, t//, /t, t/sub/.., t/sub/../, t/., x/./../t (directory names may begin or end with a dot); extensions .tw, .tw.html, .html; one case in six leaves the directory, the extension, both or the whole configuration out (the documented defaults \"templates\" and \".tw.html\" apply). Oracle: the registered names (hook VerifNames) are exactly {relative path minus extension of every file whose name ends in the extension}; each renders its own content (files that use each other as components - chains, cycles, themselves - only have to load and be registered); decoys, unknown names and layouts (files with reserves) are reported as not found; EvaluateFile(path) == EvaluateString(content). Non-trivial: a nested directory, a decoy and a non-canonical spelling or a defaulted configuration. Distinct by hash.")
+		"directory trees over names {a, b, idx, a.b, tw, names with a backslash, a blank or a percent sign} at depths {., sub, sub/deep, d<ext>/} with decoys whose names merely contain the extension (a<ext>.bak, a<ext>ig, n.txt inside a directory named x<ext>, a<ext><ext>, the bare extension) and garbage in decoys; template directory nested one or two levels and spelled t, t/, ./t, x/../t, t//, /t, t/sub/.., t/sub/../, t/., x/./../t (directory names may begin or end with a dot); extensions .tw, .tw.html, .html, .TW, .Tpl, .Tw.Html (letter case is part of an extension); one case in six leaves the directory, the extension, both or the whole configuration out (the documented defaults \"templates\" and \".tw.html\" apply). Oracle: the registered names (hook VerifNames) are exactly {relative path minus extension of every file whose name ends in the extension}; each renders its own content (files that use each other as components - chains, cycles, themselves - only have to load and be registered); decoys, unknown names and layouts (files with reserves) are reported as not found; EvaluateFile(path) == EvaluateString(content); and the Template loaded by the previous case still registers and renders what it did. Non-trivial: a nested directory, a decoy and a non-canonical spelling or a defaulted configuration. Distinct by hash.")
 	defer c.Finish()
 	runRapid(t, c, 2000, 24000, func(rt *rapid.T) {
-		ext := rapid.SampledFrom([]string{".tw", ".tw.html", ".html"}).Draw(rt, "ext")
+		ext := rapid.SampledFrom([]string{".tw", ".tw.html", ".html", ".tw", ".TW", ".Tpl", ".Tw.Html"}).Draw(rt, "ext")
 		realDir := rapid.SampledFrom([]string{"t", "x/t", "tpl/views", ".hidden/t", "t.d", "x/.t", "tpl./v."}).Draw(rt, "realDir")
 		spell := rapid.SampledFrom([]string{"plain", "trailing", "dot", "parent", "double", "leading", "parent-at-end", "parent-at-end-slash", "dot-at-end", "dot-middle"}).Draw(rt, "spelling")
 		dir := realDir
@@ -256,7 +285,7 @@ func TestC18_Addressing(t *testing.T) {
 		}
 		for i := rapid.IntRange(0, 4).Draw(rt, "nDecoys"); i > 0; i-- {
 			sub := rapid.SampledFrom([]string{"", "sub/", "x" + ext + "/"}).Draw(rt, "dsub")
-			name := rapid.SampledFrom([]string{"a" + ext + ".bak", "a" + ext + "ig", "n.txt", "a" + ext + "~", strings.TrimPrefix(ext, "."), "readme.md", "b" + ext + ".orig", "c" + strings.ToUpper(ext)}).Draw(rt, "decoy")
+			name := rapid.SampledFrom([]string{"a" + ext + ".bak", "a" + ext + "ig", "n.txt", "a" + ext + "~", strings.TrimPrefix(ext, "."), "readme.md", "b" + ext + ".orig", "c" + otherCase(ext)}).Draw(rt, "decoy")
 			if name == "n.txt" && sub == "" {
 				sub = "x" + ext + "/"
 			}
@@ -538,4 +567,12 @@ func TestC18_FileEqualsString(t *testing.T) {
 			c.Fail(rt, kindOf(f), cs, "three APIs agree", f, f)
 		}
 	})
+}
+
+// otherCase returns ext in another letter case (a different extension).
+func otherCase(ext string) string {
+	if up := strings.ToUpper(ext); up != ext {
+		return up
+	}
+	return strings.ToLower(ext)
 }
